@@ -11,6 +11,9 @@
    QUIC connection whose ClientHello is cut into two CRYPTO pieces:
      "i1" / "i2"   an Initial datagram with piece 1 / piece 2     "if"  an Initial datagram with the whole ClientHello
      "s"           any other datagram (short header, 0-RTT, ordinary UDP)
+     "jf"          an Initial datagram with the whole ClientHello of a SECOND connection (other connection ids, other name) on the
+                   same addresses and ports: a name-less endpoint of the first connection is dropped with the flow's sessions, and the
+                   flow is sniffed and dialled afresh under the name the second connection carries
    Events: Pkt(f, k) | WFail(c) (writes on transport c fail from now on) | RExit(c) (the reply loop of c ends with an error)
            | DialFail(b) (dials fail from now on / work again) | Tick6 (6 s: sniffing sessions and cached dial failures expire)
            | Tick121 (121 s: every endpoint expires as well).
@@ -36,6 +39,7 @@ EXTENDS Integers, Sequences, FiniteSets, TLC, Json
 CONSTANTS EFlows, NFlows, MaxEvents, MaxConns, MaxT6, MaxPk, Faults,
           RRs,             \* kernel routing results a datagram may arrive with: "cpr0" / "cpr1" (routed in userspace, DSCP 0 / 1),
                            \* "g1" / "g2" (the kernel already chose that group)
+          SecondConn,      \* flows of EFlows may also carry the Initial ("jf") of a second QUIC connection with another name
           ScopeSensitive   \* the routing program looks at packet metadata (ControlPlane.udpRouteScopeSensitive): endpoints are then
                            \* also keyed by the routing scope, and flows routed in userspace are bound to their destination
 
@@ -48,17 +52,21 @@ ConeK(sc) == "cone|" \o sc
 Keys == {ConeK(sc) : sc \in Scopes} \cup {SymK(f, sc) : f \in Flows, sc \in Scopes}
 GroupFor(rr, dom) == IF rr \in {"g1", "g2"} THEN rr ELSE IF dom = "example.com" THEN "g2" ELSE "g1"
 Name(f) == IF f = "A" THEN "example.com" ELSE "other.org"
+Name2 == "second.net"                      \* the name carried by a second QUIC connection on the same addresses and ports ("jf")
+Conn(k) == IF k = "jf" THEN 2 ELSE 1
+NameOf(f, cn) == IF cn = 2 THEN Name2 ELSE Name(f)
 \* userspace routing: routing { domain(full: example.com) -> g2, fallback: g1 }   (GroupFor below)
-Pieces(k) == CASE k = "i1" -> {1} [] k = "i2" -> {2} [] k = "if" -> {1, 2} [] OTHER -> {}
-IsInit(k) == k \in {"i1", "i2", "if"}
+Pieces(k) == CASE k = "i1" -> {1} [] k = "i2" -> {2} [] k \in {"if", "jf"} -> {1, 2} [] OTHER -> {}
+IsInit(k) == k \in {"i1", "i2", "if", "jf"}
 MaxRetry == 2
-NoSess == [st |-> "none", have |-> {}, buf |-> <<>>]
+NoSess == [st |-> "none", have |-> {}, buf |-> <<>>, sig |-> FALSE]
+NoSess2 == [cn \in {1, 2} |-> NoSess]
 NoEp == [st |-> "none", conn |-> 0, dom |-> "", tgt |-> "", until |-> 0]
 
 VARIABLES S, hist
 vars == <<S, hist>>
 
-Init == /\ S = [now |-> 0, sess |-> [f \in EFlows |-> NoSess], ep |-> [k \in Keys |-> NoEp], conns |-> <<>>, dialFail |-> FALSE,
+Init == /\ S = [now |-> 0, sess |-> [f \in EFlows |-> NoSess2], ep |-> [k \in Keys |-> NoEp], conns |-> <<>>, dialFail |-> FALSE,
                 dials |-> 0, out |-> <<>>, dropped |-> {}, npk |-> 0, pk |-> <<>>, t6 |-> 0, calls |-> <<>>]
         /\ hist = <<>>
 
@@ -95,36 +103,50 @@ HandlePkt(s0, f, k, pid, rr) ==
       force == Force(rr)
       sym == SymK(f, sc)
       cone == ConeK(sc)
+      cn == Conn(k)
       \* the ingress loop: an Initial creates (or refreshes) the sniffing session of its connection
-      s1 == IF init /\ s0.sess[f].st = "none" THEN [s0 EXCEPT !.sess[f] = [st |-> "open", have |-> {}, buf |-> <<>>]] ELSE s0
-      confirmed == init \/ (elig /\ s1.sess[f].st # "none")
+      s1 == IF init /\ s0.sess[f][cn].st = "none" THEN [s0 EXCEPT !.sess[f][cn] = [st |-> "open", have |-> {}, buf |-> <<>>, sig |-> FALSE]] ELSE s0
+      hasSess == elig /\ \E c \in {1, 2} : s1.sess[f][c].st # "none"
+      confirmed == init \/ hasSess
       lookup == IF force \/ elig THEN sym ELSE cone
-      found == IF Live(s1, lookup) THEN lookup
-               ELSE IF ~force /\ lookup # cone /\ Live(s1, cone) /\ s1.ep[cone].tgt = f THEN cone
-               ELSE IF ~force /\ lookup = cone /\ Live(s1, sym) /\ s1.ep[sym].tgt = f THEN sym
-               ELSE IF ~force /\ elig /\ ~confirmed /\ Live(s1, cone) THEN cone
-               ELSE "none"
+      found0 == IF Live(s1, lookup) THEN lookup
+                ELSE IF ~force /\ lookup # cone /\ Live(s1, cone) /\ s1.ep[cone].tgt = f THEN cone
+                ELSE IF ~force /\ lookup = cone /\ Live(s1, sym) /\ s1.ep[sym].tgt = f THEN sym
+                ELSE IF ~force /\ elig /\ ~confirmed /\ Live(s1, cone) THEN cone
+                ELSE "none"
+      \* a name-less endpoint and an Initial: the flow's sessions are compared with the connection ids of this datagram; a session of
+      \* another connection (and none of this one) means the addresses and ports are being reused: sessions and endpoint are dropped
+      nameless == found0 # "none" /\ s1.ep[found0].dom = "" /\ init
+      matched == nameless /\ s1.sess[f][cn].sig
+      mismatched == nameless /\ \E c \in {1, 2} : c # cn /\ s1.sess[f][c].st # "none" /\ s1.sess[f][c].sig
+      changed == mismatched /\ ~matched
+      heldNow == UNION {{s1.sess[f][c].buf[i] : i \in 1..Len(s1.sess[f][c].buf)} : c \in {1, 2}}
+      s2 == IF changed THEN [RemoveEp(s1, found0) EXCEPT !.sess[f] = [NoSess2 EXCEPT ![cn] = [st |-> "open", have |-> {}, buf |-> <<>>, sig |-> FALSE]],
+                                                         !.dropped = @ \cup heldNow]
+            ELSE IF nameless THEN [s1 EXCEPT !.sess[f][cn].sig = TRUE]       \* (the session of this connection learns its ids)
+            ELSE s1
+      found == IF changed THEN "none" ELSE found0
       dialKey(dom) == IF force \/ dom # "" \/ confirmed THEN sym ELSE cone
   IN
-  IF found # "none" /\ s1.ep[found].dom # ""
+  IF found # "none" /\ s2.ep[found].dom # ""
   THEN \* an endpoint that already carries a name: written at once; a failed write removes it and the flow is dialled again
-       LET c == s1.ep[found].conn dom == s1.ep[found].dom IN
-       IF s1.conns[c].wfail THEN Deliver(RemoveEp(s1, found), sym, dom, f, <<pid>>, 0, rr)
-       ELSE [s1 EXCEPT !.out = Append(@, [c |-> c, p |-> pid])]
+       LET c == s2.ep[found].conn dom == s2.ep[found].dom IN
+       IF s2.conns[c].wfail THEN Deliver(RemoveEp(s2, found), sym, dom, f, <<pid>>, 0, rr)
+       ELSE [s2 EXCEPT !.out = Append(@, [c |-> c, p |-> pid])]
   ELSE IF found # "none"
   THEN \* a live endpoint without a name: no sniffing, the datagram goes through it
-       Deliver(s1, found, "", f, <<pid>>, 0, rr)
+       Deliver(s2, found, "", f, <<pid>>, 0, rr)
   ELSE IF ~init
-  THEN Deliver(s1, dialKey(""), "", f, <<pid>>, 0, rr)
-  ELSE \* sniffing
-       LET ss == s1.sess[f] IN
-       IF ss.st = "done" THEN Deliver(s1, sym, Name(f), f, <<pid>>, 0, rr)
+  THEN Deliver(s2, dialKey(""), "", f, <<pid>>, 0, rr)
+  ELSE \* sniffing (the session of this datagram's connection)
+       LET ss == s2.sess[f][cn] IN
+       IF ss.st = "done" THEN Deliver(s2, sym, NameOf(f, cn), f, <<pid>>, 0, rr)
        ELSE LET have == ss.have \cup Pieces(k) IN
             IF have = {1, 2}
-            THEN Deliver([s1 EXCEPT !.sess[f] = [st |-> "done", have |-> have, buf |-> <<>>]], sym, Name(f), f, Append(ss.buf, pid), 0, rr)
-            ELSE [s1 EXCEPT !.sess[f] = [st |-> "open", have |-> have, buf |-> Append(ss.buf, pid)]]
+            THEN Deliver([s2 EXCEPT !.sess[f][cn] = [st |-> "done", have |-> have, buf |-> <<>>, sig |-> TRUE]], sym, NameOf(f, cn), f, Append(ss.buf, pid), 0, rr)
+            ELSE [s2 EXCEPT !.sess[f][cn] = [st |-> "open", have |-> have, buf |-> Append(ss.buf, pid), sig |-> TRUE]]
 
-Held(s) == UNION {{s.sess[f].buf[i] : i \in 1..Len(s.sess[f].buf)} : f \in EFlows}
+Held(s) == UNION {{s.sess[f][c].buf[i] : i \in 1..Len(s.sess[f][c].buf)} : f \in EFlows, c \in {1, 2}}
 Closed(s) == {c \in 1..Len(s.conns) : s.conns[c].closed > 0}
 Written(s) == {s.out[i].p : i \in 1..Len(s.out)}
 Obs(s, s2) == [writes |-> SubSeq(s2.out, Len(s.out) + 1, Len(s2.out)), dials |-> s2.dials, closed |-> Closed(s2),
@@ -133,7 +155,7 @@ Obs(s, s2) == [writes |-> SubSeq(s2.out, Len(s.out) + 1, Len(s2.out)), dials |->
 Log(ev, f, k, c, s2) == hist' = Append(hist, [ev |-> ev, f |-> f, k |-> k, c |-> c, rr |-> "", obs |-> Obs(S, s2)])
 LogP(f, k, rr, s2) == hist' = Append(hist, [ev |-> "pkt", f |-> f, k |-> k, c |-> 0, rr |-> rr, obs |-> Obs(S, s2)])
 
-Kinds(f) == IF f \in EFlows THEN {"i1", "i2", "if", "s"} ELSE {"s"}
+Kinds(f) == IF f \in EFlows THEN {"i1", "i2", "if", "s"} \cup (IF SecondConn THEN {"jf"} ELSE {}) ELSE {"s"}
 
 Pkt(f, k, rr) ==
              /\ S.npk < MaxPk
@@ -149,7 +171,7 @@ RExit(c) == /\ "rexit" \in Faults /\ c \in 1..Len(S.conns) /\ S.conns[c].closed 
                                /\ S' = RemoveEp(S, k) /\ Log("rexit", "", "", c, S')
 DialFail(b) == /\ "dialfail" \in Faults /\ S.dialFail # b /\ S' = [S EXCEPT !.dialFail = b] /\ Log("dialfail", "", IF b THEN "on" ELSE "off", 0, S')
 Expire(s, all) ==
-  LET s1 == [s EXCEPT !.dropped = @ \cup Held(s), !.sess = [f \in EFlows |-> NoSess],
+  LET s1 == [s EXCEPT !.dropped = @ \cup Held(s), !.sess = [f \in EFlows |-> NoSess2],
                       !.ep = [k \in Keys |-> IF s.ep[k].st = "failed" THEN NoEp ELSE s.ep[k]]]
       RECURSIVE RemAll(_, _)
       RemAll(x, ks) == IF ks = {} THEN x ELSE LET k == CHOOSE q \in ks : TRUE IN RemAll(IF Live(x, k) THEN RemoveEp(x, k) ELSE x, ks \ {k})
@@ -168,12 +190,12 @@ Spec == Init /\ [][Next]_vars
 NoDup == \A i, j \in 1..Len(S.out) : i # j => S.out[i].p # S.out[j].p
 Conservation == /\ Written(S) \cup Held(S) \cup S.dropped = 1..S.npk
                 /\ Written(S) \cap Held(S) = {} /\ Written(S) \cap S.dropped = {} /\ Held(S) \cap S.dropped = {}
-HeldAreInitials == \A p \in Held(S) : IsInit(S.pk[p].k) /\ S.pk[p].f \in EFlows /\ S.sess[S.pk[p].f].have # {1, 2}
+HeldAreInitials == \A p \in Held(S) : IsInit(S.pk[p].k) /\ S.pk[p].f \in EFlows /\ S.sess[S.pk[p].f][Conn(S.pk[p].k)].have # {1, 2}
 BatchOrdered == \A i \in 1..Len(S.calls) : LET c == S.calls[i] IN
                   /\ \A a, b \in c.from..c.to : a < b => S.out[a].p < S.out[b].p
                   /\ c.to >= c.from => S.out[c.to].p = c.p
                   /\ \A a \in c.from..c.to : S.pk[S.out[a].p].f = S.pk[c.p].f
-CompleteAtEnd == \A f \in EFlows : S.sess[f].st = "done" => S.sess[f].buf = <<>>
+CompleteAtEnd == \A f \in EFlows, c \in {1, 2} : S.sess[f][c].st = "done" => S.sess[f][c].buf = <<>>
 NameRoutes == \A c \in 1..Len(S.conns) : S.conns[c].grp = GroupFor(S.conns[c].rr, S.conns[c].dom)
 OneTransport == \A i \in 1..Len(S.calls) : LET c == S.calls[i] IN
                   Len(S.conns) = c.conns => \A a, b \in c.from..c.to : S.out[a].c = S.out[b].c
